@@ -57,6 +57,10 @@ class HeaderSuite(Suite):
                 argv += ["--skip_lfq"]
         cap = run_cli_capture(argv)
         res = {"exception": cap.get("exception"), "exit": cap.get("exit")}
+        if case["kind"] == "maxquant":
+            # the experiments the header must name are a fact about the INPUT (the model is not to be asked about whatever set the
+            # implementation arrived at)
+            res["input_experiments"] = sorted({r["experiment"] for r in inp["rows"]})
         if os.path.exists(out):
             cells = read_cells(out)
             res["header"] = cells[0] if cells else []
@@ -111,6 +115,8 @@ class HeaderSuite(Suite):
             return "duplicate-column-headers"
         if any(n != len(h) for n in out["row_lengths"]):
             return "row-length-differs-from-header"
+        if "input_experiments" in out and "experiments" in out and list(out["experiments"]) != out["input_experiments"]:
+            return "experiments-of-the-table-are-not-the-experiments-of-the-evidence"
         if "readback" in out and out["readback"] != out["mem"]:
             return "read-back-differs-from-written-results"
         if case["kind"] == "diann" and "mem" in out:
